@@ -23,6 +23,7 @@ mod cfggen;
 mod pkg;
 mod pkgobs;
 mod rawhdr;
+mod rpmwalk;
 
 #[global_allocator]
 static GLOBAL: alloc::Counting = alloc::Counting;
@@ -63,6 +64,7 @@ fn main() {
         "c17-level" => c17::run_level_child(&args),
         "c18" => c18::run(&args),
         "pkg" => pkg::run(&args),
+        "walk" => rpmwalk::run(&args),
         "c19" => c19::run(&args),
         "c20" => c20::run(&args),
         other => {
